@@ -41,11 +41,39 @@ func scenarioC16(r *Run) {
 	g.PrecBoundary = true
 	g.DrawAvoid()
 	inc := r.Inc
+	restarted := false
 	for k := 0; k < 3+r.Ch.Choose(10, "nops") && r.AgentAlive(); k++ {
 		live := r.LiveSessions()
-		switch op := r.Ch.Choose(5, "op"); {
+		op := r.Ch.Choose(5, "op")
+		if !restarted && len(live) > 0 && r.Ch.Choose(8, "agent-restart") == 1 {
+			// kill -9 and restart against the populated switch: the start-up sequence
+			// (read and clear of every table) writes too, and is validated like the rest
+			restarted = true
+			r.KillAgent()
+			for _, q := range r.Peers {
+				q.Sessions = map[uint64]*CPSession{}
+				q.Associated = false
+			}
+			r.Sim.RunFor(time.Second)
+			r.StartAgent()
+			r.Skel("restart")
+			ready := r.WaitUP4Ready()
+			if len(r.W.P4.Invalid) > 0 || !ready || !r.AgentAlive() {
+				break
+			}
+			if p.AssociateRetry() == nil {
+				break
+			}
+			inc = r.Inc
+			continue
+		}
+		switch {
 		case op <= 1 || len(live) == 0:
 			s := g.Session(p, SessShape{UEAlloc: r.Ch.Choose(3, "ua") == 1, TEIDChoose: r.Ch.Choose(2, "ch") == 1, NQER: r.Ch.Choose(4, "nq"), ExtraPDRs: r.Ch.Choose(3, "ex"), Wide: true})
+			if r.Ch.Choose(6, "ul-drop") == 1 {
+				// uplink traffic of the session is to be dropped
+				*s.FAR(1) = FARSpec{ID: 1, Action: ActDROP, DstIface: IfCore, HasFwd: true}
+			}
 			res := p.Establish(s)
 			r.Op("establish %s -> accepted=%v", describeSession(s), res.Accepted)
 			r.Skel(fmt.Sprintf("est:%v", res.Accepted))
@@ -55,6 +83,14 @@ func scenarioC16(r *Run) {
 		case op == 2:
 			s := live[r.Ch.Choose(len(live), "sess")]
 			m := g.Modification(s)
+			if r.Ch.Choose(8, "ul-far-update") == 1 {
+				// the uplink FAR turns into a dropping one, or back into a forwarding one
+				f := FARSpec{ID: 1, Action: ActDROP, DstIface: IfCore, HasFwd: true}
+				if old := s.FAR(1); old != nil && old.Action&ActDROP != 0 {
+					f.Action = ActFORW
+				}
+				m = &ModSpec{Tag: "uF:uplink", UpdateFAR: []*FARSpec{&f}}
+			}
 			if m.Empty() {
 				continue
 			}
